@@ -233,7 +233,160 @@ pub fn run(args: &Args) {
         }
     }
     let _ = std::fs::remove_dir_all(&dir);
+    if replay_case.is_none() {
+        generated_configurations(&mut sink, &mut rng, args);
+    }
+    debug_mode_runs(&mut sink, args);
     sink.finish();
+}
+
+/// "any configuration that loaded successfully": dictionaries with n x m connection matrices (non-square too) and OOV
+/// providers whose ids run over the whole range up to max(n, m): whatever loads must analyse without panicking
+fn generated_configurations(sink: &mut Sink, rng: &mut Rng, args: &Args) {
+    let res = format!("{}/sudachi/tests/resources", repo());
+    let lex = std::fs::read_to_string(format!("{}/lex.csv", res)).unwrap();
+    let pos = json!(["名詞", "普通名詞", "一般", "*", "*", "*"]);
+    for d in 0..args.n(80, 600) {
+        let nl = 2 + rng.below(6) as usize;
+        let nr = if rng.chance(1, 3) { nl } else { 2 + rng.below(6) as usize };
+        let mut matrix = format!("{} {}\n", nl, nr);
+        for l in 0..nl {
+            for r in 0..nr {
+                matrix.push_str(&format!("{} {} {}\n", l, r, rng.range(-3000, 3000)));
+            }
+        }
+        let lo = usize::min(nl, nr) as u64;
+        let hi = usize::max(nl, nr) as u64;
+        let mut rows = vec![];
+        for line in lex.lines() {
+            let mut f: Vec<String> = line.split(',').map(|s| s.to_string()).collect();
+            if f.len() < 18 {
+                continue;
+            }
+            if f[1] != "-1" {
+                f[1] = format!("{}", rng.below(lo));
+                f[2] = format!("{}", rng.below(lo));
+            }
+            rows.push(f.join(","));
+        }
+        // ids around both dimensions: below both, between them, at and beyond the larger one
+        let mut pick = |rng: &mut Rng| -> u64 {
+            match rng.below(6) {
+                0 => lo - 1,
+                1 => lo,
+                2 => hi - 1,
+                3 => hi,
+                _ => rng.below(hi + 1),
+            }
+        };
+        let (sl, sr) = (pick(rng), pick(rng));
+        let (xl, xr) = (pick(rng), pick(rng));
+        let cfg = json!({"characterDefinitionFile": "char.def",
+            "inputTextPlugin": [{"class": "com.worksap.nlp.sudachi.DefaultInputTextPlugin"}],
+            "oovProviderPlugin": [
+                {"class": "com.worksap.nlp.sudachi.RegexOovProvider", "oovPOS": pos, "leftId": xl, "rightId": xr, "cost": 500, "regex": "[a-z0-9]+", "maxLength": 16},
+                {"class": "com.worksap.nlp.sudachi.SimpleOovPlugin", "oovPOS": pos, "leftId": sl, "rightId": sr, "cost": 3000}]});
+        let dir = args.work.join(format!("gen{}", d));
+        let desc = json!({"kind": "generated-config", "matrix": format!("{}x{}", nl, nr), "simple": [sl, sr], "regex": [xl, xr]});
+        sink.tag(if nl == nr { "generated:square" } else { "generated:non_square" });
+        let loaded = catch(|| build_dictionary(&dir, &res, &matrix, &rows.join("\n"), &[], &cfg));
+        let dict = match loaded {
+            Ok(Ok(d)) => d,
+            Ok(Err(_)) => {
+                sink.tag("generated:rejected_at_load");
+                sink.case_rust_only(desc, false);
+                let _ = std::fs::remove_dir_all(&dir);
+                continue;
+            }
+            Err(p) => {
+                let id = sink.case_rust_only(desc, true);
+                sink.fail(id, &format!("loading the configuration panicked: {}", p), "");
+                let _ = std::fs::remove_dir_all(&dir);
+                continue;
+            }
+        };
+        sink.tag("generated:loaded");
+        let id = sink.case_rust_only(desc, true);
+        let mut tok = StatefulTokenizer::new(&dict, Mode::C);
+        for t in ["東京都に行った。", "abc123京都xyz", "アイウ9z", "é👍🏻", "a", "1", "東京abc"] {
+            for mode in [Mode::A, Mode::C] {
+                match analyse(&dict, &mut tok, mode, t) {
+                    Err(p) => {
+                        sink.fail(id, &format!("a configuration that loaded ({}x{} matrix, simple ids {}/{}, regex ids {}/{}) panics on {:?}: {}", nl, nr, sl, sr, xl, xr, t, p), "");
+                        tok = StatefulTokenizer::new(&dict, Mode::C);
+                    }
+                    Ok(Err(e)) => sink.fail(id, &format!("error {} for {:?} with a fallback provider", e, t), ""),
+                    Ok(Ok(_)) => {}
+                }
+            }
+        }
+        let _ = std::fs::remove_dir_all(&dir);
+    }
+}
+
+/// the debug dump of the tokenizer (StatefulTokenizer::create(dic, true, ..) / `sudachi -d`) prints to stdout: it is run
+/// in a child process whose stdout is discarded; the child reports through its exit status and stderr
+fn debug_mode_runs(sink: &mut Sink, args: &Args) {
+    let exe = std::env::current_exe().unwrap();
+    let out = std::process::Command::new(exe)
+        .arg("C03DBG")
+        .arg("--seed")
+        .arg(format!("{}", args.seed))
+        .arg("--work")
+        .arg(&args.work)
+        .stdout(std::process::Stdio::null())
+        .output();
+    let id = sink.case_rust_only(json!({"kind": "debug-mode-sequences"}), true);
+    sink.tag("debug_mode_child");
+    match out {
+        Ok(o) => {
+            let err = String::from_utf8_lossy(&o.stderr).to_string();
+            for line in err.lines().filter(|l| l.starts_with("C03DBG-FAIL")) {
+                sink.fail(id, line, "");
+            }
+            if !o.status.success() && !err.contains("C03DBG-FAIL") {
+                sink.fail(id, &format!("debug-mode child exited with {:?}: {}", o.status.code(), err.chars().take(300).collect::<String>()), "");
+            }
+        }
+        Err(e) => sink.fail(id, &format!("cannot start the debug-mode child: {}", e), ""),
+    }
+}
+
+/// child process: debug-dump tokenizers reused over longer -> shorter -> longer texts
+pub fn run_debug_child(args: &Args) {
+    let res = format!("{}/sudachi/tests/resources", repo());
+    let system = std::fs::read(format!("{}/system.dic.test", res)).unwrap();
+    let user = std::fs::read(format!("{}/user.dic.test", res)).unwrap();
+    let dir = args.work.join("resdbg");
+    let _ = std::fs::remove_dir_all(&dir);
+    prepare_resources(&dir, &res).unwrap();
+    let (_, cfg) = configs().into_iter().next().unwrap();
+    let dict = load_dictionary(&dir, system, vec![user], &cfg).expect("dictionary");
+    let mut rng = Rng::new(args.seed);
+    let mut bad = 0;
+    for mode in [Mode::A, Mode::B, Mode::C] {
+        let mut tok = StatefulTokenizer::create(&dict, true, mode);
+        let mut texts: Vec<String> = vec!["東京都に行った。京都にも行った。".into(), "東京".into(), "".into(), "a".into(), "高輪ゲートウェイ駅に東京都から行った".into(), "に".into()];
+        for _ in 0..40 {
+            texts.push(rand_text(&mut rng));
+        }
+        for t in texts {
+            let r = catch(|| {
+                tok.reset().push_str(&t);
+                tok.do_tokenize().map(|_| ()).map_err(|e| format!("{:?}", e))
+            });
+            match r {
+                Ok(_) => {}
+                Err(p) => {
+                    eprintln!("C03DBG-FAIL debug-dump tokenizer (mode {:?}) panicked on {:?} after earlier inputs: {}", mode, t, p);
+                    bad += 1;
+                    tok = StatefulTokenizer::create(&dict, true, mode);
+                }
+            }
+        }
+    }
+    let _ = std::fs::remove_dir_all(&dir);
+    std::process::exit(if bad > 0 { 1 } else { 0 });
 }
 
 fn lattice_term(dict: &JapaneseDictionary, tok: &mut StatefulTokenizer<&JapaneseDictionary>, text: &str) -> Option<String> {
